@@ -60,8 +60,11 @@ ENC = z3.Function("ENC", z3.IntSort(), Str, R.Bytes)  # codec id, text -> bytes
 DEC = z3.Function("DEC", z3.IntSort(), R.Bytes, Str)
 DECODABLE = z3.Function("DECODABLE", z3.IntSort(), R.Bytes, z3.BoolSort())
 STRLEN = z3.Function("STRLEN", Str, z3.IntSort())
-CODECS = {"utf-16-le": 1, "utf-8": 2, "utf8": 2, "ascii": 3}
-CODEC_UNIT = {1: 2, 2: 1, 3: 1}
+# 4..6: codecs whose result depends on / adds a byte-order mark or uses the other byte order. They are opaque: no law relates them
+# to utf-16-le, so a clause that needs decode(encode_le(x)) == x is refuted (not proved) when the code uses one of them.
+CODECS = {"utf-16-le": 1, "utf-8": 2, "utf8": 2, "ascii": 3, "utf-16": 4, "utf16": 4, "utf_16": 4, "utf-16-be": 5, "utf-8-sig": 6, "utf_16_le": 1, "utf_8": 2}
+CODEC_UNIT = {1: 2, 2: 1, 3: 1, 4: 2, 5: 2, 6: 1}
+CODEC_NAME = {1: "utf-16-le", 2: "utf-8", 3: "ascii", 4: "utf-16", 5: "utf-16-be", 6: "utf-8-sig"}
 
 
 class Env:
@@ -243,8 +246,7 @@ class Interp:
             return self._enc_rope(cid, term.arg(0)) + self._enc_rope(cid, term.arg(1))
         for s, t in list(__import__("pyvc.smt", fromlist=["_str_lits"])._str_lits.items()):
             if t.eq(term):
-                codec = {1: "utf-16-le", 2: "utf-8", 3: "ascii"}[cid]
-                return R.Rope.lit(s.encode(codec))
+                return R.Rope.lit(s.encode(CODEC_NAME[cid]))
         e = ENC(cid, term)
         self.ctx.assume(blen(e) >= 0)
         if CODEC_UNIT[cid] == 2:
@@ -386,6 +388,10 @@ class Interp:
             return SBytes(R.Rope.lit(bytes.fromhex(d["hex"])))
         if k == "uuid":
             return SUUID(R.Rope.lit(_uuid.UUID(hex=d["hex"]).bytes_le))
+        if k == "regex":
+            from .builtins import RegexVal
+
+            return RegexVal(d["pattern"], d.get("flags", 0))
         if k == "enum":
             cls = self.P.classes[d["cls"]]
             return SEnum(cls, self.from_dump(d["value"]), d["name"])
@@ -495,6 +501,48 @@ class Interp:
     def e_Dict(self, node, env):
         return DictVal([(self.eval(k, env), self.eval(v, env)) for k, v in zip(node.keys, node.values)])
 
+    def strcat(self, parts):
+        """Concatenation of text pieces (Python str or SStr) in a canonical form: STRCAT chains are flattened, adjacent
+        literals merged, empty literals dropped, and the result is rebuilt left-nested - so that `"a" + "b." + x`,
+        f"{A}.{x}" with a constant A, and "a.b." + x are one term (STRCAT is uninterpreted: associativity is by construction)."""
+        from . import smt as _smt
+
+        rev = {t.get_id(): lit for lit, t in _smt._str_lits.items()}
+        leaves = []
+
+        def flat(t):
+            if z3.is_app(t) and t.decl().eq(STRCAT):
+                flat(t.arg(0))
+                flat(t.arg(1))
+            elif t.get_id() in rev:
+                leaves.append(rev[t.get_id()])
+            else:
+                leaves.append(t)
+
+        for p_ in parts:
+            if isinstance(p_, str):
+                leaves.append(p_)
+            else:
+                flat(self.str_term(p_))
+        merged = []
+        for x in leaves:
+            if isinstance(x, str):
+                if x == "":
+                    continue
+                if merged and isinstance(merged[-1], str):
+                    merged[-1] += x
+                    continue
+            merged.append(x)
+        if not merged:
+            return ""
+        if len(merged) == 1 and isinstance(merged[0], str):
+            return merged[0]
+        term = None
+        for x in merged:
+            t = str_lit(x) if isinstance(x, str) else x
+            term = t if term is None else STRCAT(term, t)
+        return SStr(term)
+
     def e_JoinedStr(self, node, env):
         parts = []
         sym = False
@@ -516,11 +564,7 @@ class Interp:
         if not sym:
             return "".join(parts)
         # symbolic text: keep literal prefix/suffix structure when possible
-        term = None
-        for p in parts:
-            t = self.str_term(p)
-            term = t if term is None else STRCAT(term, t)
-        return SStr(term)
+        return self.strcat(parts)
 
     def e_Lambda(self, node, env):
         return Lambda(node, env, env.module)
@@ -655,7 +699,7 @@ class Interp:
         if isinstance(a, (str, SStr)) and isinstance(b, (str, SStr)) and isinstance(op, ast.Add):
             if isinstance(a, str) and isinstance(b, str):
                 return a + b
-            return SStr(STRCAT(self.str_term(a), self.str_term(b)))
+            return self.strcat([a, b])
         if isinstance(a, list) and isinstance(b, list) and isinstance(op, ast.Add):
             return a + b
         if isinstance(a, tuple) and isinstance(b, tuple) and isinstance(op, ast.Add):
@@ -825,6 +869,13 @@ class Interp:
                         tot = tot + (1 - (A / (2**i)) % 2) * (2**i)
                 return simp(tot)
             if isinstance(op, ast.BitXor):
+                if mask == 0:
+                    return a
+                if mask & (mask + 1) == 0:
+                    # a ^ (2^w - 1) = (2^w - 1) - a  for 0 <= a < 2^w (complement within the field)
+                    iv = self.ctx.interval(simp(A))
+                    if (iv is not None and iv[0] is not None and iv[1] is not None and iv[0] >= 0 and iv[1] <= mask) or self.ctx.entails(z3.And(A >= 0, A <= mask)):
+                        return simp(mask - A)
                 tot = A
                 for i in range(mask.bit_length()):
                     if mask >> i & 1:
@@ -834,6 +885,13 @@ class Interp:
         if isinstance(op, ast.BitOr):
             for x, y in ((a, b), (b, a)):
                 X, Y = Z(x), Z(y)
+                iv = self.ctx.interval(simp(Y))
+                if iv is not None and iv[0] is not None and iv[1] is not None and iv[0] >= 0:
+                    # the width of the low operand is known from its range: one divisibility query decides
+                    k0 = max(int(iv[1]).bit_length(), 1)
+                    for k in [k0] + [w for w in (7, 8, 16) if w > k0]:
+                        if self.ctx.entails(X % (2**k) == 0):
+                            return simp(X + Y)
                 for k in (8, 7, 16, 6, 5, 4, 3, 2, 1, 14, 15):
                     if self.ctx.entails(z3.And(Y >= 0, Y < 2**k)) and self.ctx.entails(X % (2**k) == 0):
                         return simp(X + Y)
